@@ -365,6 +365,7 @@ def run_trio_inline(fn, vclock):
         done = trio.Event()
 
         async def child():
+            res["task"] = trio.lowlevel.current_task()
             try:
                 res["value"] = await fn()
             finally:
@@ -378,7 +379,11 @@ def run_trio_inline(fn, vclock):
                 await trio.lowlevel.cancel_shielded_checkpoint()
                 spins += 1
                 st = trio.lowlevel.current_statistics()
-                idle = idle + 1 if st.tasks_runnable == 0 else 0
+                # blocked = parked in an abortable wait (a task that merely passed a checkpoint is rescheduled and has no abort function); the run
+                # queue alone is not enough: within one batch the child may simply run after the parent
+                task = res.get("task")
+                blocked = task is not None and getattr(task, "_abort_func", None) is not None
+                idle = idle + 1 if (st.tasks_runnable == 0 and blocked) else 0
                 if idle > 20:
                     if st.seconds_to_next_deadline != float("inf"):
                         vclock.now += max(0.0, st.seconds_to_next_deadline) + 1e-9
@@ -387,7 +392,7 @@ def run_trio_inline(fn, vclock):
                     res["hang"] = True
                     nursery.cancel_scope.cancel()
                     break
-                if spins > 2_000_000:
+                if spins > 200_000_000:  # (a child that never blocks is the wall-clock watchdog's business; big cases take millions of spins)
                     raise HarnessHang("inline trio caller never finishes")
 
     _deterministic_scheduling()
